@@ -209,6 +209,11 @@ async def _asgi_request(app, path, inm, ims, method="GET"):
         headers.append((b"if-modified-since", ims.encode("latin-1")))
     if _RANGE[0] and (inm is not None or ims is not None):
         headers.append((b"range", b"bytes=0-"))
+    # the order in which a client writes its headers is its own business: for half of the requests the validators
+    # come in the opposite order, before the Host line
+    import zlib as _zlib
+    if _zlib.crc32(((inm or "") + "|" + (ims or "")).encode("latin-1", "replace")) % 2:
+        headers.reverse()
     scope = {"type": "http", "asgi": {"version": "3.0"}, "http_version": "1.1", "method": method, "scheme": "http",
              "path": path, "raw_path": path.encode(), "query_string": b"", "root_path": "", "headers": headers,
              "server": ("testserver", 80), "client": ("127.0.0.1", 1234)}
@@ -865,7 +870,7 @@ def random_hist(rng, length=30):
         if k < 0.45:
             ops.append(rq(j, rng.choice(["e", "w", "m", "m", "b", "bw", "s"])))
         elif k < 0.85:
-            n = rng.randrange(1, 5)
+            n = rng.choice([1, 2, 3, 4, 4, 9, 12, 20])
             pos = rng.randrange(0, n) if rng.random() < 0.8 else -1
             members = []
             for i in range(n):
@@ -947,6 +952,15 @@ def cases(rng, tier):
         for tz in ("EST5EDT", "Asia/Kolkata", "America/St_Johns", "Pacific/Kiritimati"):
             iface = ("wsgi", "asgi")[idx % 2]
             yield hist(iface, ("files", "pages")[(idx // 2) % 2] + "@" + tz, tps, 20, BASE * tps, BASE * tps, ops)
+    # long If-None-Match lists: the current tag as the 9th, 12th, 33rd member (strong and weak), before and after a change
+    for idx, count in enumerate((9, 12, 33)):
+        for weak in (False, True):
+            members = [("", i % 2 == 0, "zz%d" % i, " " if i % 3 == 0 else "") for i in range(count - 1)] + [(" ", weak, ETAG, "")]
+            tps, step = TICKS[idx % 3]
+            for iface in ("wsgi", "asgi"):
+                for app in ("files", "pages"):
+                    ops = ["pl", rq_list(0, members), "ws:%d" % ((BASE + 5) * tps), rq_list(0, members), "pl", rq_list(2, members)]
+                    yield hist(iface, app, tps, 20, BASE * tps, BASE * tps, ops)
     # the same short histories under every constructor option set
     for idx, abstract in enumerate(exhaustive(3, core, False, allmods)):
         tps, step = TICKS[idx % 3]
